@@ -71,9 +71,12 @@ pub fn expr_into_metadatum(
     expr: &tir::Expression,
 ) -> Result<pallas::ledger::primitives::alonzo::Metadatum, Error> {
     match expr {
-        tir::Expression::Number(x) => Ok(pallas::ledger::primitives::alonzo::Metadatum::Int(
-            Int::from(*x as i64),
-        )),
+        tir::Expression::Number(x) => {
+            let int = Int::try_from(*x)
+                .map_err(|_| Error::CoerceError(format!("{x}"), "Metadatum integer".to_string()))?;
+
+            Ok(pallas::ledger::primitives::alonzo::Metadatum::Int(int))
+        }
         tir::Expression::String(x) => Ok(pallas::ledger::primitives::alonzo::Metadatum::Text(
             x.clone(),
         )),
